@@ -30,6 +30,11 @@ CHECKS = {
          "BFS over operation histories (pushes of equal and different content, image/index manifests incl. nested and mistyped references, same bytes under two media types, mounts, deletes, one chunked upload) through ocifilter.Immutable(ocimem) (depth 3 quick / 4 thorough) and through ocimem in immutable-tags mode (depth 2 / 3, also compared with the reference model), from empty and 4 seeded states, plus closed mini-universes to FIXPOINT. Monitors: first observed (tag -> digest, bytes) must hold in every later state via ResolveTag and GetTag; through Immutable nothing ever retrievable is lost and no delete succeeds; in immutable-tags mode the model-computed transitive closure of every tag stays retrievable. ReadOnly: in every reached backend state every mutating call through the wrapper fails UNSUPPORTED, the backend dump is bit-identical afterwards and all reads equal direct reads.",
          "Sequential histories only here; the concurrent part of the immutable-tags claim is explored by C08's scheduler harnesses. Bounded universe as C02.",
          "DESIGN.md 3 C14"),
+ "C16": ("model_checking", "E1-sched",
+         "stateless exhaustive schedule exploration (all interleavings, no preemption bound) of the real ociunify code under a cooperative scheduler installed by build overlay",
+         "144 scenarios (5 read entry points x 4x4 member scripts {success, failure, block until own context cancelled then succeed/fail} x canceller thread on/off x member reader Close error on/off) x EVERY schedule of the caller, the two sender goroutines that ociunify itself spawns, and the canceller: go statements, channel send/receive/close and every ready select case are choice points owned by the explorer. After every complete schedule: result is a successful member's answer or an error only if both failed or the caller had cancelled; every reader opened by the unchosen member is closed exactly once; the chosen member's context is live until the returned reader's Close and cancelled afterwards (immediately for resolve-style reads); no thread remains blocked (scheduler-level deadlock detection); determinism self-check before exploring.",
+         "Scheduling points are synchronisation operations (sound for data-race-free code); unlock/close/spawn are not followed by an extra point, the next synchronisation operation of the same thread is. Members are harness fakes; scenarios where a blocking member is never cancelled are excluded (a hang there is outside the property).",
+         "DESIGN.md 2.2, 3 C16"),
  "C17": ("exploration", "E4-enum",
          "bounded exhaustive enumeration of all strings up to length 6 over an 11-symbol alphabet plus grammar-directed component products, against hand-written recognisers",
          "Every string of length <= 5 (quick) / <= 6 (thorough) over {a,A,0,.,:,/,@,-,_,[,]} and the product of 17 hosts x 22 repositories x 12 tags x 13 digests (valid and invalid, boundary lengths 128/129, 255/256): no panic from any exported ociref/ociregistry validity function or parser; parse ok => print equals input and each part valid and within its limit; Parse agrees with ParseRelative; every independently valid partition with a host is recovered; predicates equal the independent recogniser on every string incl. empty; routing agreement through ociserver with a recording backend (accepted as repository/tag/digest iff the predicate holds; backend never sees an invalid argument).",
